@@ -6,6 +6,7 @@ import YV.Drv.C03
 import YV.Drv.Y
 import YV.Drv.T
 import YV.Drv.S
+import YV.Drv.V
 open Lean YV.Drv
 
 def dispatch (j : Json) : List (String × Json) :=
@@ -18,6 +19,7 @@ def dispatch (j : Json) : List (String × Json) :=
   | "yparse" => Y.handle j
   | "ytypes" => T.handle j
   | "ypath" => S.handlePath j
+  | "yvals" => V.handle j
   | k => [("m", Json.str ("unknown-kind:" ++ k)), ("s", Json.str "unknown-kind")]
 
 partial def loop (hin : IO.FS.Stream) (hout : IO.FS.Stream) : IO Unit := do
